@@ -115,6 +115,49 @@ reg("C38", Spec(
 
 
 # ---------------------------------------------------------------------------------------------------------
+# E1 simcheck
+# ---------------------------------------------------------------------------------------------------------
+SIM_NOTE = ("Trusted: the simulation harness (virtual clock/timer/spawner/transport implementing dust-dds's public runtime and "
+            "transport traits; an independent 200-line RTPS wire parser for classifying datagrams). Its determinism is "
+            "checked on every run (baseline of each scenario executed twice with identical trace hashes; prefix replay must "
+            "reproduce the prefix). Both participants live in one process and share the single DDS worker, as in any "
+            "single-process dust-dds deployment; the sync API wrappers and the UDP transport are not on the explored path.")
+SIM_ASSUME = ["virtual time: no jitter between two consecutive steps of one task",
+              "deviations beyond the completed bound per execution are not explored (after the last deviation the network is perfect)",
+              "payload/QoS values outside the scenario alphabets are not explored"]
+
+
+def sim(level, text, rule, design_ref, floor=(50, 10), timeout=(170, 3600), model_keys=False, extra_assume=()):
+    return Spec("simcheck", level, text, SIM_NOTE,
+                "stateless model checking of the real implementation: exhaustive deviation-bounded enumeration of "
+                "fault/schedule/timing choice vectors by prefix replay in a deterministic full-stack simulation",
+                design_ref, rule, SIM_ASSUME + list(extra_assume), floor=floor, timeout=timeout, model_keys=model_keys)
+
+
+FATES = "{deliver, drop, duplicate, hold-behind-next, hold-until-clock-advance, duplicate-late}"
+
+reg("C01", sim(
+    "fault_enumeration",
+    "Every fate vector with at most 2 (quick) / 3 (thorough) non-default fates over all user-traffic datagrams "
+    "(DATA, DATA_FRAG, HEARTBEAT, GAP, ACKNACK, NACK_FRAG, both directions) of each scenario is executed against two real "
+    "participants; after the last deviation the network is perfect. Checked on every execution: exactly-once, per-instance "
+    "publication order, byte-identical payloads at every take, and delivery of everything the writer still holds within "
+    "3 s of virtual time after healing. Scenarios cover small and fragmented samples, 1-2 instances, write spacing below "
+    "and above the poke/heartbeat periods, KEEP_ALL and KEEP_LAST(1,2) writers.",
+    f"all choice vectors with ≤ bound non-default entries; one choice point per (datagram, destination) inside the fault "
+    f"window with alphabet {FATES}; distinct = distinct execution trace hashes (observations + delivered datagrams + times)",
+    "DESIGN.md §4 C01"))
+
+reg("C02", sim(
+    "fault_enumeration",
+    "Same exploration with a BEST_EFFORT reader (reliable and best-effort writer), including a fragmented sample followed "
+    "by small ones so fragments interleave with later DATA. Safety only: presented samples form an at-most-once, "
+    "per-instance ordered, byte-identical subsequence of what was written.",
+    f"all choice vectors with ≤ bound non-default entries over alphabet {FATES}; distinct = distinct trace hashes",
+    "DESIGN.md §4 C02"))
+
+
+# ---------------------------------------------------------------------------------------------------------
 # MANIFEST
 # ---------------------------------------------------------------------------------------------------------
 def gen_manifest():
